@@ -6,7 +6,7 @@ from trie.smt import SparseMerkleProof, SparseMerkleTree
 
 from ..ref.smt import RefSMT
 from ..util import Info, Raised, expect, expect_eq, impl
-from .c14 import DEFAULTS, _flipbit, key_sizes, resolve_smt_key, smt_ops
+from .c14 import DEFAULTS, _flipbit, key_sizes, resolve_smt_key, resolve_smt_val, smt_ops
 
 ID = "C15"
 LEVEL = "exploration"
@@ -48,6 +48,7 @@ def strategy(tier):
             "ops": smt_ops(8 if tier == "quick" else 24),
             "trunc": st.lists(trunc, min_size=24, max_size=24),
             "every_bit": st.booleans(),
+            "sync": st.lists(st.booleans(), min_size=24, max_size=24),
         }
     )
 
@@ -72,6 +73,7 @@ def run_case(case):
     written = []
 
     def tree_op(kind, k, val):
+        val = resolve_smt_val(val, ref)
         if kind == "set":
             ret = impl("set", tree.set, k, val)
             model[k] = val
@@ -146,7 +148,12 @@ def run_case(case):
                 info.count("truncations")
         impl("sufficient-update-accepted", proof.update, k, val, updates[:need])
         minimal += 1
-        check_sync(proof, f"after update {no} ({kind} {k.hex()})")
+        # the proof is not always read between two updates (several may be pending)
+        sync = case.get("sync") or [True]
+        if sync[no % len(sync)] or no == len(ops) - 1:
+            check_sync(proof, f"after update {no} ({kind} {k.hex()})")
+        else:
+            info.label("updates-without-read-in-between")
     info.label("rejected-truncation", rejected > 0)
     info.label("depths>=3", len(depths) >= 3)
     info.nontrivial = rejected >= 1 and minimal >= 1 and len(depths) >= 3
